@@ -35,7 +35,8 @@ ID = 'C19'
 LEVEL = 'proof'
 THEORIES = ['theories/L4Steps/MangleProofs.vo',
             'theories/L4Steps/StepperProofs.vo',
-            'theories/L4Steps/AssemblyProofs.vo']
+            'theories/L4Steps/AssemblyProofs.vo',
+            'theories/L4Steps/IsolationExact.vo']
 
 HEADER = '''From Coq Require Import List Bool String ZArith.
 Import ListNotations.
@@ -311,7 +312,14 @@ def gen_steppers(ctx, n_inst, nsteps, max_states):
 # ===================================================================== (2)
 BENIGN = [('foo', 'bar', 'scheduler'), ('left', 'right'), ('p', 'q', 'r')]
 ADVERSARIAL = [('a', 'ab'), ('ab', 'a'), ('foo', 'foo_'), ('a', 'a_b'),
-               ('a', 'ab', 'abc'), ('m', 'm_', 'm__'), ('x', 'xy', 'y')]
+               ('a', 'ab', 'abc'), ('m', 'm_', 'm__'), ('x', 'xy', 'y'),
+               # names with underscores that are prefixes of one another, and
+               # names that look like another component's mangled memory
+               # variable (C19_assembly_isolation_synthesized: isolation of
+               # synthesized components does not depend on the names)
+               ('cell_1', 'cell_10'), ('a', 'a_b', 'a_b_c'),
+               ('cell_1', 'cell_10', 'cell_'), ('a', 'a_goal'),
+               ('c_hold', 'c', 'c_goal')]
 
 
 def make_assembly(rng, thorough):
@@ -740,7 +748,10 @@ def correspond(ctx):
         'the code returned iff it is among the model\'s candidates). '
         'assemblies: 2-3 logged components (AutomatonStepper, Scheduler, '
         'hand-made Moore machines) under benign and adversarial names (one '
-        'name a prefix of another, names ending in "_", visible variables '
+        'name a prefix of another, names ending in "_", names with '
+        'underscores that are prefixes of one another or look like another '
+        'component\'s mangled memory variable (cell_1/cell_10, a/a_b/a_b_c, '
+        'a/a_goal, c_hold/c/c_goal), visible variables '
         'that look like mangled names, declared-but-never-output hidden '
         'variables, deliberate collisions); the whole run (init + k steps) '
         'compared with the model run. mangling functions: random '
